@@ -35,6 +35,8 @@ class Scenario:
     def __init__(self, name):
         self.name = name
         self.sig = "scenario:" + name
+        if name == "constructors_dtype":
+            self.tol = 1e-12        # values requested in double precision are compared in double precision
 
     def run(self, env):
         import numpy as np
@@ -65,6 +67,25 @@ class Scenario:
             t = synapgrad.tensor([[x[0, 0], x[0, 1]], [x[1, 0], x[1, 1]]]) if not env.sym else Tn(x)
             out.pair("tensor(nested list)", t.data, x)
             out.fact("tensor(..., requires_grad=True) requires grad", synapgrad.tensor([1.0, 2.0], requires_grad=True).requires_grad)
+            return out
+        if n == "constructors_dtype":
+            # a requested dtype is honoured for the *values* too: nothing is rounded through the default float32 on the way
+            f64, i64 = np.float64, np.int64
+            big = 16777217           # 2**24 + 1: not representable in float32
+            for nm, mk, want in (
+                    ("tensor([0.1, 0.7], dtype=float64)", lambda: synapgrad.tensor([0.1, 0.7], dtype=f64), [0.1, 0.7]),
+                    ("Tensor([0.1, 0.7], dtype=float64)", lambda: synapgrad.Tensor([0.1, 0.7], dtype=f64), [0.1, 0.7]),
+                    ("Tensor(0.3, dtype=float64)", lambda: synapgrad.Tensor(0.3, dtype=f64), 0.3),
+                    ("arange(0, 0.5, 0.1, dtype=float64)", lambda: synapgrad.arange(0, 0.5, 0.1, dtype=f64), [0.0, 0.1, 0.2, 0.30000000000000004, 0.4]),
+                    ("tensor([2**24+1], dtype=int64)", lambda: synapgrad.tensor([big], dtype=i64), [big]),
+                    ("Tensor([2**24+1], dtype=int64)", lambda: synapgrad.Tensor([big], dtype=i64), [big]),
+                    ("arange(2**24, 2**24+3, dtype=int64)", lambda: synapgrad.arange(big - 1, big + 2, dtype=i64), [big - 1, big, big + 1])):
+                t = mk()
+                want = np.array(want)
+                out.fact("%s has the requested dtype" % nm, str(t.dtype) == ("int64" if "int64" in nm else "float64"), "dtype %s" % t.dtype)
+                out.fact("%s has shape %s" % (nm, want.shape), tuple(t.shape) == want.shape, "got %s" % (tuple(t.shape),))
+                if tuple(t.shape) == want.shape:
+                    out.pair("%s values" % nm, t.data, want if env.sym else want.astype(np.float64))
             return out
         x = env.arr("x", (3, 2))
         t = Tn(x, requires_grad=(n == "iteration_grad"))
@@ -101,7 +122,7 @@ class Scenario:
         raise ValueError(n)
 
 
-SCENARIOS = ["constructors", "iteration", "iteration_grad", "nested_iteration", "interleaved_iteration"]
+SCENARIOS = ["constructors", "constructors_dtype", "iteration", "iteration_grad", "nested_iteration", "interleaved_iteration"]
 
 
 def build(spec):
